@@ -4,14 +4,17 @@ an ephemeral client never gates or fast-forwards the publisher (C05), a balanced
 import json, random
 
 
-def run_history(seed, balance=False, steps=60):
+def run_history(seed, balance=False, steps=60, required=False):
     from . import zmq_history
     Z = zmq_history.load()
     rnd = random.Random(seed)
     nb = 2 if balance else 1
-    snd = Z.ZMQSender([f'tcp://*:{7000 + 2 * i}' for i in range(nb)], 'srv', balance=balance)
     share = rnd.random() < 0.4       # replicas: several live connections may share one client id (they differ in their unique id)
-    clients = [dict(cid=('c0' if share else f'c{i}'), uid=f'u{i}', eph=(1 if (i >= 1 and rnd.random() < 0.5) else 0), pull=snd.pulls[i % nb], req=0, got=0, pending=False, tracked=False, prev=-1, stalled=False) for i in range(rnd.randint(1, 3))]
+    n_clients = rnd.randint(2 if required else 1, 3)
+    # required outputs (outs_required): the publisher additionally waits until every listed client id is connected - it never waits LESS for the others
+    req_ids = sorted({('c0' if share else f'c{i}') for i in range(n_clients) if i == 0 or rnd.random() < 0.5}) if required else []
+    snd = Z.ZMQSender([f'tcp://*:{7000 + 2 * i}' for i in range(nb)], 'srv', balance=balance, **({'outs_required': req_ids} if required else {}))
+    clients = [dict(cid=('c0' if share else f'c{i}'), uid=f'u{i}', eph=(1 if (i >= 1 and rnd.random() < 0.5) else 0), pull=snd.pulls[i % nb], req=0, got=0, pending=False, tracked=False, prev=-1, stalled=False) for i in range(n_clients)]
     published, bad, events = [], [], []
     next_payload = 0
     fed = False
@@ -47,7 +50,7 @@ def run_history(seed, balance=False, steps=60):
             for i in range(nb):
                 on = [x for x in clients if x['tracked'] and snd.pulls.index(x['pull']) == i] if balance else [x for x in clients if x['tracked']]
                 sync = [x for x in on if not x['eph']]
-                if sync and all(x['pending'] for x in sync):
+                if sync and all(x['pending'] for x in sync) and all(any(x['tracked'] and x['cid'] == r_ for x in clients) for r_ in req_ids):
                     ready.append(i)
             if ready and fed_ and not used:      # the gate is re-evaluated only when a message arrives during the send
                 eph_idle = [x['cid'] for x in clients if x['tracked'] and x['eph'] and not x['pending']]
@@ -115,15 +118,15 @@ def search(n=400, seed=0):
     bad = clock_skew_check()
     if bad:
         return {'confirmed': True, 'inputs': {'scenario': 'one request delivered by a poll that blocked for 3 s (virtual clock)'}, 'observed': bad}
-    for balance in (False, True):
+    for balance, required in ((False, False), (True, False), (False, True), (True, True)):
         for i in range(n):
             try:
-                bad, events = run_history(seed * 7919 + i, balance)
+                bad, events = run_history(seed * 7919 + i, balance, required=required)
             except Exception as e:
                 bad, events = [f'raised {type(e).__name__}: {e}'], []
             if bad:
-                return {'confirmed': True, 'inputs': {'balanced': balance, 'history': events[-20:]}, 'observed': bad}
-    return {'confirmed': False, 'detail': f'no violating history among {2 * n} random sender histories'}
+                return {'confirmed': True, 'inputs': {'balanced': balance, 'required outputs configured': required, 'history': events[-20:]}, 'observed': bad}
+    return {'confirmed': False, 'detail': f'no violating history among {4 * n} random sender histories'}
 
 
 if __name__ == '__main__':
